@@ -86,7 +86,9 @@ PROPS["C10"] = {
     "outside": "fields longer than F bytes other than the documented limits (the limits themselves — row of 65535 bytes, family of 255 bytes — are checked with symbolic bytes at the field ends only); rows >= 64 KiB and families >= 256 bytes (rejected by HBase; the length fields wrap)",
     "assumptions": [],
     "jobs": [
-        {"name": "cell_roundtrip", "pkg": "hrpc", "entry": "VerifCellRoundTrip", "reach": ["roundtrip"],
+        {"name": "cell_types", "pkg": "hrpc", "entry": "VerifCellRoundTrip", "reach": ["roundtrip"],
+         "params": {"quick": {"F": 1, "P": 0, "PX": 0}, "thorough": {"F": 1, "P": 0, "PX": 0}}},
+        {"name": "cell_roundtrip", "pkg": "hrpc", "entry": "VerifCellRoundTrip", "reach": ["roundtrip"], "timeout_s": {"quick": 300, "thorough": 3000},
          "params": {"quick": {"F": 3, "P": 2, "PX": 2}, "thorough": {"F": 4, "P": 2, "PX": 40}}},
         {"name": "cell_boundary", "steps": 60000000, "pkg": "hrpc", "entry": "VerifCellBoundary", "reach": ["boundary"], "sample_pass": 1,
          "params": {"quick": {"ROW": 65535, "FAM": 255, "ALLOC": 70000}, "thorough": {"ROW": 65535, "FAM": 255, "ALLOC": 70000}}},
@@ -112,6 +114,8 @@ PROPS["C15"] = {
     "jobs": [
         {"name": "compress_roundtrip", "pkg": "region", "entry": "VerifCompressRoundTrip", "reach": ["roundtrip"],
          "params": {"quick": {"CHUNK": 2, "ENC": 3, "BUFS": 2, "S": 3}, "thorough": {"CHUNK": 2, "ENC": 3, "BUFS": 3, "S": 3}}},
+        {"name": "compress_expanding", "pkg": "region", "entry": "VerifCompressExpanding", "reach": ["roundtrip"],
+         "params": {"quick": {"CHUNK": 2, "ENC": 48, "BUFS": 1, "S": 3}, "thorough": {"CHUNK": 2, "ENC": 48, "BUFS": 2, "S": 3}}},
         {"name": "compress_roundtrip_bigchunk", "pkg": "region", "entry": "VerifCompressRoundTrip", "reach": ["roundtrip"],
          "params": {"quick": {"CHUNK": 16, "ENC": 2, "BUFS": 2, "S": 3}, "thorough": {"CHUNK": 6, "ENC": 3, "BUFS": 3, "S": 4}}},
         {"name": "decompress_conforming", "pkg": "region", "entry": "VerifDecompressConforming", "reach": ["conforming", "truncated"],
@@ -165,6 +169,8 @@ PROPS["C01"] = {
          "params": {"quick": {"K": 2, "KL": 1, "T": 2, "KEYL": 2}, "thorough": {"K": 3, "KL": 1, "T": 3, "KEYL": 2}}},
         {"name": "route_from_cache_longkeys", "pkg": "root", "entry": "VerifRouteFromCache", "reach": ["hit", "miss"],
          "params": {"quick": {"K": 2, "KL": 2, "T": 1, "KEYL": 2}, "thorough": {"K": 2, "KL": 2, "T": 2, "KEYL": 3}}},
+        {"name": "route_namespace_twin", "pkg": "root", "entry": "VerifRouteNamespaceTwin", "reach": ["hit", "miss"],
+         "params": {"quick": {"K": 1, "KL": 1, "T": 2, "KEYL": 1}, "thorough": {"K": 2, "KL": 1, "T": 2, "KEYL": 2}}},
         {"name": "route_concurrent", "pkg": "root", "entry": "VerifRouteConcurrent", "reach": ["routed-concurrently"],
          "preempts": {"quick": 2, "thorough": 3}, "params": {"quick": {"RACE": 1}, "thorough": {"RACE": 1}}},
         {"name": "addressing", "pkg": "root", "entry": "VerifAddressing", "reach": ["addressed"],
@@ -180,7 +186,7 @@ PROPS["C01"] = {
         {"name": "meta_lookup", "pkg": "root", "entry": "VerifMetaLookup", "reach": ["accepted", "rejected", "not-found"],
          "stubs": {"(*github.com/tsuna/gohbase.client).SendRPC": "github.com/tsuna/gohbase.vMetaSendRPC",
                    "google.golang.org/protobuf/proto.Unmarshal": "github.com/tsuna/gohbase/region.vUnmarshal"},
-         "params": {"quick": {"T": 3, "KEYL": 2}, "thorough": {"T": 3, "KEYL": 3}}},
+         "params": {"quick": {"T": 4, "KEYL": 2}, "thorough": {"T": 4, "KEYL": 3}}},
     ],
 }
 
@@ -323,6 +329,8 @@ PROPS["C03"] = {
          "preempts": {"quick": 1, "thorough": 2}, "params": {"quick": {"RACE": 1, "K": 8, "protoMax": 1, "protoFixed": 1}, "thorough": {"RACE": 1, "K": 12, "protoMax": 1, "protoFixed": 1}}},
         {"name": "failure_concurrent_reader", "pkg": "region", "entry": "VerifFailureConcurrentReader", "stubs": RECV_STUBS, "reach": ["completed"],
          "preempts": {"quick": 2, "thorough": 3}, "params": {"quick": {"RACE": 1, "K": 4, "protoMax": 1, "protoFixed": 1}, "thorough": {"RACE": 1, "K": 5, "protoMax": 1, "protoFixed": 1}}},
+        {"name": "failure_big_batch", "pkg": "region", "entry": "VerifFailureBigBatch", "reach": ["big-batch"],
+         "preempts": {"quick": 2, "thorough": 3}, "params": {"quick": {"RACE": 1, "protoMax": 1, "protoFixed": 1}, "thorough": {"RACE": 1, "protoMax": 1, "protoFixed": 1}}},
         {"name": "failure_blocked_writer", "pkg": "region", "entry": "VerifFailureBlockedWriter", "reach": ["writer-released"],
          "preempts": {"quick": 1, "thorough": 2}, "params": {"quick": {"RACE": 1, "protoMax": 1, "protoFixed": 1}, "thorough": {"RACE": 1, "protoMax": 1, "protoFixed": 1}}},
         # failure "by read timeout" presupposes that the timeout is armed whenever a request is outstanding (shared with C18)
@@ -352,6 +360,8 @@ PROPS["C02"] = {
         {"name": "multi_correlation", "pkg": "region", "entry": "VerifMultiCorrelation", "stubs": RECV_STUBS, "reach": ["correlated"], "native_retries": 10,
          "params": {"quick": {"CALLS": 2, "CELLS": 1, "protoMax": 1, "protoFixed": 1}, "thorough": {"CALLS": 3, "CELLS": 2, "protoMax": 1, "protoFixed": 1}}},
         {"name": "compressed_cells", "pkg": "region", "entry": "VerifCompressedCells", "stubs": RECV_STUBS, "reach": ["held"], "native_retries": 5,
+         "params": {"quick": {"protoMax": 1, "protoFixed": 1}, "thorough": {"protoMax": 1, "protoFixed": 1}}},
+        {"name": "multi_reuse", "pkg": "region", "entry": "VerifMultiReuse", "stubs": RECV_STUBS, "reach": ["reused"], "native_retries": 6,
          "params": {"quick": {"protoMax": 1, "protoFixed": 1}, "thorough": {"protoMax": 1, "protoFixed": 1}}},
         {"name": "multi_not_shared", "pkg": "region", "entry": "VerifMultiNotShared", "stubs": RECV_STUBS, "reach": ["distinct"], "native_retries": 3,
          "params": {"quick": {"protoMax": 1, "protoFixed": 1}, "thorough": {"protoMax": 1, "protoFixed": 1}}},
@@ -419,23 +429,27 @@ PROPS["C05"] = {
 }
 
 PROPS["C20"] = {
-    "files": ["root/fakes.go", "root/c08_cache.go", "root/c01_routing.go", "root/c20_connections.go", "region/fakes.go", "region/c20_dialonce.go"],
+    "files": ["root/fakes.go", "root/c08_cache.go", "root/c01_routing.go", "root/c09_establish.go", "root/c20_connections.go", "region/fakes.go", "region/c20_dialonce.go"],
+    "native_files": ["root/c09_establish_native.go"], "native_cuts": [{"file": "rpc.go", "from": "func (c *client) lookupRegion(", "to": "func (c *client) lookupRegionOrig("}],
     "claim": "Every sequence of STEPS put / del / clientDown operations on the connection cache over two addresses and three regions: a "
              "put returns the connection held for the address unless it was declared dead (clientDown), opens one otherwise, and never "
              "crosses addresses. R regions of one address established concurrently by the real establishRegion (every interleaving "
              "within the bound) create one region client; later regions reuse it; another address gets its own. CALLERS concurrent Dial "
              "calls on a real region client dial once and all see that outcome."
-             " Also: a connection the dialer hands out after the dial context expired is closed with its region client; a region client reports the address it was created with (six spellings).",
+             " Also: a connection the dialer hands out after the dial context expired is closed with its region client; two regions at one address share one real region client whatever the spelling of the address (six spellings).",
     "outside": "address aliasing (one server under two names); more than R regions / CALLERS callers; data races",
     "assumptions": ["fake region clients at the hrpc.RegionClient seam for the establisher harness (probe always answered)"],
     "jobs": [
         {"name": "client_cache_ops", "pkg": "root", "entry": "VerifClientCacheOps", "reach": ["reused", "declared-dead"],
          "params": {"quick": {"STEPS": 4}, "thorough": {"STEPS": 5}}},
+        {"name": "probe_retry_later", "steps": 40000, "pkg": "root", "entry": "VerifProbeRetryLater", "reach": ["retried-later"],
+         "stubs": {"(*github.com/tsuna/gohbase.client).lookupRegion": "github.com/tsuna/gohbase.vLookupRegion"},
+         "params": {"quick": {"FAULTS": 0, "RACE": 1}, "thorough": {"FAULTS": 0, "RACE": 1}}},
         {"name": "establish_shared", "pkg": "root", "entry": "VerifEstablishShared", "reach": ["established"],
          "preempts": {"quick": 2, "thorough": 3}, "params": {"quick": {"RACE": 1, "R": 2}, "thorough": {"RACE": 1, "R": 3}}},
         {"name": "late_failure_report", "pkg": "root", "entry": "VerifLateFailureReport", "reach": ["late-report"],
          "preempts": {"quick": 1, "thorough": 2}, "params": {"quick": {"RACE": 1}, "thorough": {"RACE": 1}}},
-        {"name": "region_client_addr", "pkg": "region", "entry": "VerifClientAddr", "reach": ["addr"], "params": {"quick": {}, "thorough": {}}},
+        {"name": "shared_client_spellings", "pkg": "root", "entry": "VerifSharedClientSpellings", "reach": ["shared"], "params": {"quick": {}, "thorough": {}}},
         {"name": "dial_late_connection", "pkg": "region", "entry": "VerifDialLate", "reach": ["late-dial"],
          "preempts": {"quick": 2, "thorough": 3}, "params": {"quick": {"RACE": 1, "protoMax": 1, "protoFixed": 1}, "thorough": {"RACE": 1, "protoMax": 1, "protoFixed": 1}}},
         {"name": "dial_once", "pkg": "region", "entry": "VerifDialOnce", "reach": ["dialled"],
@@ -464,6 +478,8 @@ PROPS["C09"] = {
     "jobs": [
         {"name": "establish", "steps": 40000, "timeout_s": {"quick": 300, "thorough": 1500}, "pkg": "root", "entry": "VerifEstablish", "stubs": EST_STUBS, "reach": ["re-established", "replaced-or-gone"],
          "params": {"quick": {"FAULTS": 2}, "thorough": {"FAULTS": 3}}},
+        {"name": "replacement_race", "steps": 40000, "pkg": "root", "entry": "VerifReplacementRace", "stubs": EST_STUBS, "reach": ["replaced-under-load"],
+         "preempts": {"quick": 2, "thorough": 3}, "params": {"quick": {"FAULTS": 0, "RACE": 1}, "thorough": {"FAULTS": 1, "RACE": 1}}},
         {"name": "evicted_while_establishing", "steps": 40000, "pkg": "root", "entry": "VerifEvictedWhileEstablishing", "stubs": EST_STUBS, "reach": ["evicted"],
          "preempts": {"quick": 1, "thorough": 2}, "params": {"quick": {"FAULTS": 0, "RACE": 1}, "thorough": {"FAULTS": 1, "RACE": 1}}},
         {"name": "two_callers", "steps": 40000, "timeout_s": {"quick": 300, "thorough": 1500}, "pkg": "root", "entry": "VerifTwoCallers", "stubs": EST_STUBS, "reach": ["both-returned"],
@@ -478,7 +494,7 @@ PROPS["C09"] = {
 }
 
 PROPS["C04"] = {
-    "files": EST_FILES + ["region/fakes.go", "region/c04_classify.go", "root/c04_api.go"], "native_files": ["root/c09_establish_native.go"], "native_cuts": EST_CUTS,
+    "files": EST_FILES + ["region/fakes.go", "region/c04_classify.go", "root/c04_api.go", "root/c17_backoff.go"], "native_files": ["root/c09_establish_native.go"], "native_cuts": EST_CUTS,
     "claim": "Safety part only. exceptionToError over EVERY class-name string up to L bytes maps the 12 listed classes (and "
              "java.io.IOException with its log-closed stack) to their retry class and every other name to a plain error. One request through SendRPC for a cached or unknown region, every script of up to FAULTS cluster "
              "misbehaviours (request answered not-serving / server-error / retry-later, dial failure, probe failures, hbase:meta "
@@ -491,6 +507,8 @@ PROPS["C04"] = {
                "region level in C11's receive jobs for the listed classes)",
     "assumptions": ["(*client).lookupRegion is cut (scripted hbase:meta / ZooKeeper)", "fake region clients; back-off via the repository's override hook"],
     "jobs": [
+        {"name": "lookup_retried", "steps": 40000, "pkg": "root", "entry": "VerifLookupPacing", "reach": ["paced"], "native_retries": 10, "preempts": {"quick": 1, "thorough": 2},
+         "params": {"quick": {"ATTEMPTS": 2}, "thorough": {"ATTEMPTS": 4}}},
         {"name": "public_api", "pkg": "root", "entry": "VerifPublicAPI", "reach": ["api"], "params": {"quick": {}, "thorough": {}}},
         {"name": "establish_faults", "steps": 40000, "timeout_s": {"quick": 300, "thorough": 1500}, "pkg": "root", "entry": "VerifEstablish", "stubs": EST_STUBS, "reach": ["re-established", "replaced-or-gone"],
          "params": {"quick": {"FAULTS": 2}, "thorough": {"FAULTS": 4}}},
@@ -541,6 +559,8 @@ PROPS["C17"] = {
          "params": {"quick": {"ATTEMPTS": 4, "BATCH": 1}, "thorough": {"ATTEMPTS": 6, "BATCH": 1}}},
         {"name": "establish_pacing", "steps": 40000, "pkg": "root", "entry": "VerifEstablishPacing", "stubs": EST_STUBS, "reach": ["paced"],
          "params": {"quick": {"ATTEMPTS": 3, "FAULTS": 0}, "thorough": {"ATTEMPTS": 6, "FAULTS": 0}}},
+        {"name": "establish_pacing_probe", "steps": 40000, "pkg": "root", "entry": "VerifEstablishPacingProbe", "stubs": EST_STUBS, "reach": ["paced"],
+         "params": {"quick": {"ATTEMPTS": 3, "FAULTS": 0}, "thorough": {"ATTEMPTS": 6, "FAULTS": 0}}},
         {"name": "lookup_pacing", "steps": 40000, "pkg": "root", "entry": "VerifLookupPacing", "reach": ["paced"], "native_retries": 10, "preempts": {"quick": 1, "thorough": 2},
          "params": {"quick": {"ATTEMPTS": 3}, "thorough": {"ATTEMPTS": 5}}},
         {"name": "lookup_all_pacing", "steps": 40000, "pkg": "root", "entry": "VerifLookupAllPacing", "reach": ["paced"],
@@ -587,6 +607,8 @@ PROPS["C13"] = {
         {"name": "cancel_single", "steps": 60000, "pkg": "root", "entry": "VerifCancelSingle", "reach": ["cancelled"], "watchdog": 20,
          "params": {"quick": {}, "thorough": {}}},
         {"name": "deadline_single", "steps": 60000, "pkg": "root", "entry": "VerifDeadlineSingle", "reach": ["expired"], "watchdog": 20,
+         "params": {"quick": {}, "thorough": {}}},
+        {"name": "cancel_second_caller", "steps": 60000, "pkg": "root", "entry": "VerifCancelSecondCaller", "reach": ["second-cancelled"], "watchdog": 20,
          "params": {"quick": {}, "thorough": {}}},
         {"name": "cancel_batch", "steps": 60000, "pkg": "root", "entry": "VerifCancelBatch", "reach": ["cancelled", "call-context-cancelled"], "watchdog": 20,
          "params": {"quick": {}, "thorough": {}}},
